@@ -220,6 +220,7 @@ class Scenario:
         self.obs = []  # address-free observations, compared between the twins
         self.call_seq = 0
         self.probes = {}
+        self.reported = set()
 
     def viol(self, props, oracle, phase, *detail):
         self.violations.append({
@@ -269,6 +270,11 @@ class Scenario:
         heap.current_call = "harness"
         trace = heap.trace[t0:]
         for e in heap.check():
+            # a damaged red zone stays damaged: report it for the call that did it, once
+            if e[0] in ("overflow", "underflow", "write_after_release"):
+                if (e[0], e[1]) in self.reported:
+                    continue
+                self.reported.add((e[0], e[1]))
             self.viol(HEAP_PROPS.get(e[0], ("C05",)) + (("C04",) if kind == "compute" else ()),
                       e[0], phase, *e[1:])
         if ret != 0:
